@@ -311,3 +311,15 @@ Theorem C19_emd_pre_copies_safe : forall plen qlen pn pext qn qext crows ccols c
   PreC19Safe.vec_copy crow ccols <> None /\ 1 <= Z.max plen qlen.
 Proof. exact PreC19Safe.emd_pre_copies_safe. Qed.
 Print Assumptions C19_emd_pre_copies_safe.
+
+(* Full (abstract counting lemma; the reason augment's three scratch lists fit into their n entries):
+   a duplicate-free list of columns below n that all carry the current mark has room for a column
+   without the mark.  The refinement "augment keeps the marks" (on_to_do for to_do; done for scan and
+   for ready ++ pending scan) is the missing part of the main loop, together with: a non-empty scan
+   after every rebuild (= an augmenting path exists: has_PM) and the pred / x / y chain of the final
+   flip (x[y[j]] = j along the alternating path). *)
+Theorem C19_marked_list_capacity : forall (n i j : Z) (mark : Z -> Z) (l : list Z),
+  0 <= n -> NoDup l -> (forall x, In x l -> 0 <= x < n /\ mark x = i) -> 0 <= j < n -> mark j <> i ->
+  zlen l < n /\ NoDup (j :: l).
+Proof. exact marked_list_capacity. Qed.
+Print Assumptions C19_marked_list_capacity.
